@@ -18,12 +18,15 @@ RULE = ('linkers over 1-4 submodels BUILT by fsic from C01-grammar programs (9 t
         'duplicates and an unknown id at each position; positive/negative/out-of-span t; min_iter 0..max_iter+2, max_iter 0..4 (and <0), '
         'tol in {1e-10, 0.5, 1, 0, 1e-300}, failures; exhaustive per-iteration move sequences (0, tol-1ulp, tol, tol+1ulp, 1.0 per check '
         'entry) up to the tier bound; non-finite values; raising hooks / submodels at every stage; offsets in and out of span; '
-        'multi-period solve(start=, end=) by label incl. defaults from the longest lag / lead, reversed and empty ranges, unknown labels, empty span; histories of 2-4 solve_t calls on one linker (other periods, other selections, other options; every call judged against the state the earlier calls left); copies of a linker (copy() / copy.copy / copy.deepcopy): solve the copy or the original, the other stays untouched and nothing is shared; single-model linker vs bare model twins; constructor over every ordered pair of list / tuple / range / ndarray / pandas Index / PeriodIndex / DatetimeIndex spans (equal, one position different, shorter, empty) and random mixed-kind families. '
+        'multi-period solve(start=, end=) by label incl. defaults from the longest lag / lead, reversed and empty ranges, unknown labels, empty span; histories of 2-4 solve_t calls on one linker (other periods, other selections, other options; every call judged against the state the earlier calls left); copies of a linker (copy() / copy.copy / copy.deepcopy): solve the copy or the original, the other stays untouched and nothing is shared; single-model linker vs bare model twins (scripted, with own-hook scripts, and over parser-built models); string identifiers incl. \'_\' and `submodels=\'ab\'`; constructor over every ordered pair of list / tuple / range / ndarray / pandas Index / PeriodIndex / DatetimeIndex spans (equal, one position different, shorter, empty) and random mixed-kind families. '
         'Non-trivial = at least 2 iterations executed, or a stop exactly at k=min_iter or k=max_iter, or an exception path, or a '
         'constructor call over >= 2 submodels; distinct by hash of the whole case.')
 TRUSTED = ['scripted submodel / linker subclasses harness/scripted_linker.py (the same scripts are the Coq oracles of Linker/LinkerF.v); '
            'for submodels built by fsic.build_model the values each _evaluate leaves are recorded by an instrumented subclass and replayed as the oracle']
-ASSUMPTIONS = ['the oracle judges only what the statement constrains; K (the model) additionally mirrors: nothing stamped on a raise path, '
+ASSUMPTIONS = ['twin clause: the wrapped model\'s own solve_t_before / solve_t_after do nothing — a linker never calls a submodel\'s hooks, the bare '
+               'model does, so a model whose hooks write values is solved differently (premise of C08_single_model_linker_eq_model: id_hook; such '
+               'twins are generated and compared by K, not judged by the oracle); no submodel is keyed \'_\' in the positive theorems (kept finding)',
+               'the oracle judges only what the statement constrains; K (the model) additionally mirrors: nothing stamped on a raise path, '
                'which counters are zeroed before a KeyError, what hooks are handed as submodels=, copies — such differences surface as '
                'no-failing-input-found, by design',
                '_evaluate of a submodel writes only that submodel\'s variable values; the four linker hooks write only variable values of the '
@@ -84,7 +87,8 @@ def _kw(case):
     kw = dict(min_iter=o['min_iter'], max_iter=o['max_iter'], tol=lib.unhex(o['tol']), offset=o['offset'],
               failures=o['failures'], errors=o['errors'], catch_first_error=o['catch_first_error'])
     if case.get('sel') is not None:
-        kw['submodels'] = list(case['sel'])
+        # `submodels='ab'`: a string is a sequence of one-character ids ('a', then 'b')
+        kw['submodels'] = ''.join(case['sel']) if case.get('sel_str') else list(case['sel'])
     return kw
 
 
@@ -210,11 +214,14 @@ def impl(case):
         obs['out'] = out if out is not None else ['ret', bool(r)]
         # the bare model, solved directly
         s = case['subs'][0]
-        m = sl.instantiate_sub(fsic.BaseModel, s, list(range(2000, 2000 + case['n'])), [])
+        span = list(range(2000, 2000 + case['n']))
+        m = sl.instantiate_built_sub(fsic, s, span, []) if s.get('program') else sl.instantiate_sub(fsic.BaseModel, s, span, [])
         kwm = {k: v for k, v in kw.items() if k != 'submodels'}
         r, out = _out_of(lambda: m.solve_t(case['t'], **kwm))
         d = dict(_comp_obs(m, 'V', s['nvars']), log=m.__dict__['_evlog'])
         d['out'] = out if out is not None else ['ret', bool(r)]
+        if s.get('program'):       # what the generated _evaluate left, pass by pass, under the MODEL's own warning filter
+            d['recorded'] = sl.recorded_passes(m)
         obs['direct'] = d
         return obs
     raise AssertionError(kind)
@@ -226,6 +233,14 @@ Import ListNotations.
 Require Import Fsic.Base.PyBase Fsic.Solver.Solver Fsic.Solver.SolverF Fsic.Linker.Linker Fsic.Linker.LinkerF.
 Open Scope float_scope. Open Scope Z_scope.
 '''
+
+
+STR_IDS = {'_': 4001, 'a': 3001, 'b': 3002, 'c': 3003, 'd': 3004}      # '_' = Linker.us_id: the key of the linker's own check values
+
+
+def _idn(x):
+    """submodel identifier -> the natural number standing for it in the Coq model (integers as they are, strings by table)"""
+    return STR_IDS[x] if isinstance(x, str) else int(x)
 
 
 def c_action(a):
@@ -254,14 +269,18 @@ def c_laction(a):
     raise AssertionError(a)
 
 
-def c_pscripts(passes):
-    """{pos: [[actions] per iteration]} -> SolverF.scripts"""
-    return lib.clist('(%d%%nat, mkPS [] %s [])' % (int(p), lib.clist(lib.clist(map(c_action, acts)) for acts in ps))
-                     for p, ps in sorted(passes.items(), key=lambda kv: int(kv[0])))
+def c_pscripts(passes, own=None):
+    """{pos: [[actions] per iteration]} (+ the model's own solve_t_before / solve_t_after scripts) -> SolverF.scripts"""
+    own = own or {}
+    keys = sorted(set(passes) | set(own), key=int)
+    return lib.clist('(%d%%nat, mkPS %s %s %s)' % (int(p), lib.clist(map(c_action, own.get(p, {}).get('before', []))),
+                                                  lib.clist(lib.clist(map(c_action, acts)) for acts in passes.get(p, [])),
+                                                  lib.clist(map(c_action, own.get(p, {}).get('after', []))))
+                     for p in keys)
 
 
 def c_subscripts(case):
-    return lib.clist('(%d%%nat, %s)' % (s['id'], c_pscripts(s.get('passes', {}))) for s in case['subs'] if s.get('passes'))
+    return lib.clist('(%d%%nat, %s)' % (_idn(s['id']), c_pscripts(s.get('passes', {}))) for s in case['subs'] if s.get('passes'))
 
 
 def c_lscripts(hooks):
@@ -282,7 +301,7 @@ def c_opts(o):
 
 
 def c_nats(xs):
-    return lib.clist('%d%%nat' % i for i in xs)
+    return lib.clist('%d%%nat' % _idn(i) for i in xs)
 
 
 def c_mstate(vals, status, iters, log=()):
@@ -303,7 +322,7 @@ def c_levent(e):
     if k == 'pre':
         return '(LPre %s)' % lib.cZ(e[1])
     if k == 'sub':
-        return '(LSub %d%%nat %s %d%%nat)' % (e[1], lib.cZ(e[2]), e[3])
+        return '(LSub %d%%nat %s %d%%nat)' % (_idn(e[1]), lib.cZ(e[2]), e[3])
     return '(%s %s %d%%nat)' % ({'before': 'LBefore', 'after': 'LAfter', 'post': 'LPost'}[k], lib.cZ(e[1]), e[2])
 
 
@@ -311,7 +330,7 @@ def c_lstate(case, core, subs, log):
     cd = c_desc(case['core']['check'], range(case['core']['nvars']))
     items = []
     for s, d in zip(case['subs'], subs):
-        items.append('(%d%%nat, %s)' % (s['id'], c_comp(c_desc(s['check'], s.get('endo', []), s.get('lags', 0), s.get('leads', 0)), d)))
+        items.append('(%d%%nat, %s)' % (_idn(s['id']), c_comp(c_desc(s['check'], s.get('endo', []), s.get('lags', 0), s.get('leads', 0)), d)))
     return '(mkL %s %s %s)' % (c_comp(cd, core), lib.clist(items), lib.clist(map(c_levent, log)))
 
 
@@ -404,7 +423,7 @@ def c_case(case, obs):
         d = obs['direct']
         desc = c_desc(s['check'], s.get('endo', []), s.get('lags', 0), s.get('leads', 0))
         m = '(mkCase %s %s %s %s %s %s %s)' % (
-            c_pscripts(s.get('passes', {})), desc, c_opts(case['opts']), lib.cZ(case['t']),
+            c_pscripts(d['recorded'] if s.get('program') else s.get('passes', {}), case['subs'][0].get('own')), desc, c_opts(case['opts']), lib.cZ(case['t']),
             c_mstate(s['vals'], s['status'], s['iters']),
             c_mstate(d['vals'], d['status'], d['iters'], map(c_mevent, d['log'])), c_moutcome(d['out']))
         return '(CTwin %s %s %s %s %s %s %s %s)' % (c_subscripts(case), c_sel(case.get('sel')), c_opts(case['opts']), lib.cZ(case['t']),
@@ -640,12 +659,15 @@ def _oracle_solve_t(case, obs, bad, t=None, before=None):
 
     # ---- convergence: least k in [max 1 min_iter, max_iter] at which EVERY check entry moved by < tol; stamping; counts.
     # `start` = the check values the first iteration is compared with
-    def judge(start):
+    def judge(start, own=True):
         fails = []
 
         def fail(sig, what):
             fails.append((sig, what))
-        seq = [start] + [[sn['_']] + [sn[str(sid)] for sid in sel_known] for sn in obs['snaps']]
+        # the harness' snapshot files the linker's own vector under '__own__' (a submodel may be keyed '_')
+        seq = [start] + [[sn['__own__']] + [sn[str(sid)] for sid in sel_known] for sn in obs['snaps']]
+        if not own:               # as if the linker had no check variable of its own
+            seq = [vecs[1:] for vecs in seq]
         if len(obs['snaps']) != m:
             fail('snapshots', 'harness: %d snapshots for %d iterations' % (len(obs['snaps']), m))
             return fails
@@ -697,13 +719,31 @@ def _oracle_solve_t(case, obs, bad, t=None, before=None):
     comps = [(0, case['core']['check'])] + [(j + 1, s['check']) for j, s in enumerate(case['subs']) if s['id'] in sel_known]
     c0_plain = [[initial(c, i, p) for i in chk] for c, chk in comps]
     if q is None:
-        for sig, what in judge(c0_plain):
-            bad(sig, what)
+        c0 = c0_plain
     else:
         # the run starts from the SEEDED values: the first iteration is compared with the check values read after the seeding
-        c0_seeded = [[initial(c, i, q if seeds(c, i) else p) for i in chk] for c, chk in comps]
-        for sig, what in judge(c0_seeded):
+        c0 = [[initial(c, i, q if seeds(c, i) else p) for i in chk] for c, chk in comps]
+    fails = judge(c0)
+    if fails and '_' in sel_known and case['core']['check'] and not judge(c0, own=False):
+        # kept finding: a selected submodel keyed '_' — the key under which get_check_values files the linker's OWN check values
+        # — overwrites them: the run is exactly the one of a linker without check variables of its own, and nothing else is wrong
+        bad('convergence|submodel-id-underscore-shadows-linker', 'a selected submodel has the id \'_\': the linker\'s own check variables '
+            'are left out of the convergence test (%s: %s)' % (fails[0][0], fails[0][1][:160]))
+    else:
+        for sig, what in fails:
             bad(sig, what)
+
+
+def _twin_regime(case, obs):
+    """the premises of the twin clause other than the rejections: finite values, no warning / exception inside _evaluate (kept
+    finding twin|no-error-policy otherwise), and a model whose own solve_t_before / solve_t_after do nothing"""
+    sub = case['subs'][0]
+    if not sub.get('program'):
+        return _all_finite_case(sub)
+    ok = all(math.isfinite(_f(x)) for row in sub['vals'] for x in row)
+    for rec in (obs.get('recorded', {}).get(str(sub['id']), {}), obs['direct'].get('recorded', {})):
+        ok = ok and all(a[0] == 'set' and math.isfinite(_f(a[2])) for ps in rec.values() for acts in ps for a in acts)
+    return ok
 
 
 def _all_finite_case(sub):
@@ -816,19 +856,24 @@ def oracle(case, obs):
         # "solves it to the same statuses, iteration counts and values as solving that model directly": compared whenever the
         # call is meaningful for both (t inside the span, a valid errors= value, the model selected)
         in_scope = in_span and o['errors'] in ERRMODES and _ids(case) == [s['id']]
-        if in_scope:
+        own_hooks = any(h.get('before') or h.get('after') for h in s.get('own', {}).values())
+        if in_scope and own_hooks:
+            pass        # PREMISE of the twin clause: the model's own solve_t_before / solve_t_after do nothing (a linker never calls a
+                        # submodel's hooks; the bare model does) — such twins are run for K only (both models follow the code)
+        elif in_scope:
             a = (obs['out'][:2], lk['status'], lk['iters'], lk['vals'])
             b = (d['out'][:2], d['status'], d['iters'], d['vals'])
             rejected = (o['min_iter'] > o['max_iter'] or not (s.get('lags', 0) <= p < n - s.get('leads', 0))
                         or (o['offset'] != 0 and not (0 <= p + o['offset'] < n)))
+            regime = _twin_regime(case, obs)
             if a != b:
                 what = 'linker %s / model %s' % ((obs['out'][:2], lk['status'][p], lk['iters'][p]), (d['out'][:2], d['status'][p], d['iters'][p]))
-                if not rejected and not _all_finite_case(s):
+                if not rejected and not regime:
                     bad('twin|no-error-policy', 'non-finite value / warning / exception inside _evaluate: the bare model applies errors=%r '
                         '(SolutionError, status E / S, replacement), the linker wrapping it has no error policy: %s' % (o['errors'], what))
                 else:
                     bad('twin|differs', 'a linker wrapping one model and adding no equations differs from the bare model: ' + what)
-            if _all_finite_case(s) and not rejected and (obs['core']['status'][p], obs['core']['iters'][p]) != (d['status'][p], d['iters'][p]) \
+            if regime and not rejected and (obs['core']['status'][p], obs['core']['iters'][p]) != (d['status'][p], d['iters'][p]) \
                     and not (obs['out'][0] == 'raise' and obs['out'][2]):
                 bad('twin|linker-stamp', 'the linker\'s own status/iterations differ from the model\'s')
             if rejected and (obs['core']['status'], obs['core']['iters']) != (case['core']['status'], case['core']['iters']):
@@ -1118,13 +1163,21 @@ def random_case(rng, kind='solve_t'):
         for j, s in enumerate(subs):
             s['id'] = j
         ids = list(range(ns))
+    str_sel = False
+    if kind != 'twin' and ns and rng.random() < 0.12:
+        # string identifiers, among them '_' — the key get_check_values uses for the linker's own check values
+        names = rng.sample(['_', 'a', 'b', 'c', 'd'], ns) if rng.random() < 0.6 else rng.sample(['a', 'b', 'c', 'd'], ns)
+        for s, nm in zip(subs, names):
+            s['id'] = nm
+        ids = list(names)
+        str_sel = rng.random() < 0.35
     sel = None
     if kind != 'twin':
         r = rng.random()
         if r < 0.55:
             sel = rng.sample(ids, rng.randint(0, len(ids)))
             if rng.random() < 0.12:
-                sel.insert(rng.randint(0, len(sel)), rng.choice([7, 8, 99]))
+                sel.insert(rng.randint(0, len(sel)), rng.choice([7, 8, 99]) if not isinstance(ids[0] if ids else 0, str) else 'd' if 'd' not in ids else 7)
             if sel and rng.random() < 0.06:
                 sel.append(rng.choice(sel))
     elif rng.random() < 0.5:
@@ -1168,6 +1221,13 @@ def random_case(rng, kind='solve_t'):
         core['status'][p] = rng.choice(['.', 'F', 'E', 'S'])
         core['iters'][p] = rng.randint(0, 9)
     c = mk_case(kind=kind, n=n, t=t, core=core, subs=subs, sel=sel, hooks=hooks, **opts)
+    if str_sel and sel and all(isinstance(x, str) and len(x) == 1 for x in sel):
+        c['sel_str'] = True                     # passed as the string ''.join(sel): `submodels='ab'`
+    if kind == 'twin' and subs and rng.random() < 0.2:
+        # the model's OWN solve_t_before / solve_t_after write values: run by BaseModel.solve_t, never by a linker (premise of the twin clause)
+        nv = subs[0]['nvars']
+        subs[0]['own'] = {str(p): {'before': [['set', rng.randrange(nv), lib.fhex(rng.choice([0.5, 2.0, -1.0]))] for _ in range(rng.randint(0, 2))],
+                                   'after': [['set', rng.randrange(nv), lib.fhex(rng.choice([0.25, 3.0]))] for _ in range(rng.randint(0, 1))]}}
     if kind == 'solve':
         mlag = max([s['lags'] for s in subs] + [0])
         mlead = max([s['leads'] for s in subs] + [0])
@@ -1314,6 +1374,24 @@ def history_case(rng):
     return c
 
 
+def built_twin_case(rng):
+    """a linker around ONE model built by fsic from a C01-grammar program (no linker variables, no hooks) next to that model solved
+    directly — real generated code on both sides, each under its own warning filter"""
+    c = built_case(rng, 'solve_t')
+    sub = c['subs'][rng.randrange(len(c['subs']))]
+    sub['id'] = 0
+    n = c['n']
+    c.update(kind='twin', subs=[sub], core=mk_comp(0, n, []), hooks={}, sel=rng.choice([None, [0]]))
+    lo, hi = sub['lags'], n - 1 - sub['leads']
+    p = _pos(c)
+    if not (lo <= p <= hi) and lo <= hi and rng.random() < 0.8:
+        p = rng.randint(lo, hi)
+        c['t'] = p if rng.random() < 0.7 else p - n
+    if rng.random() < 0.15:
+        c['opts']['offset'] = rng.choice([-1, 1, -2, n])
+    return c
+
+
 def ctor_cases(rng, count):
     """constructor over 0-4 submodels: one container kind or mixed kinds; later spans equal to the first, or different in
     length (shorter / longer / empty) or at one position (first / middle / last) or shifted; differing LAGS / LEADS"""
@@ -1400,6 +1478,15 @@ def fixed_cases():
                 g = [mk_sub(0, 1, 5, [0], lags=2, leads=0, passes={str(t % 5): settle([1.0, 1.0])}),
                      mk_sub(1, 1, 5, [0], lags=0, leads=1, passes={str(t % 5): settle([2.0, 2.0])})]
                 out.append(mk_case(n=5, t=t, subs=g, sel=sel, min_iter=mn, max_iter=mx, failures='ignore'))
+    # the key '_': get_check_values files the linker's own check values under '_' — a submodel keyed '_' overwrites them (kept finding);
+    # L0 is bumped by 1.0 after every iteration, the submodel is static: keyed 'a' -> 'F' after 5 iterations, keyed '_' -> "solved" at 2
+    for key in ('_', 'a'):
+        sub = mk_sub(0, 1, 3, [0], passes={'1': settle([1.0] * 5)})
+        sub['id'] = key
+        out.append(mk_case(n=3, t=1, core=mk_comp(1, 3, [0]), subs=[sub], max_iter=5, failures='ignore',
+                           hooks={'1': {'after': [[['affine', 0, 0, lib.fhex(1.0), 0, 0, lib.fhex(1.0)]]] * 5}}))
+        out.append(mk_case(n=3, t=1, core=mk_comp(1, 3, [0]), subs=[sub], sel=[], max_iter=5, failures='ignore',
+                           hooks={'1': {'after': [[['affine', 0, 0, lib.fhex(1.0), 0, 0, lib.fhex(1.0)]]] * 5}}))
     # empty check lists (the BaseModel default): a selected submodel that contributes nothing to the convergence test is still
     # evaluated, counted and stamped; with every check list empty the period is solved at iteration max(1, min_iter)
     for mn, mx in ((0, 4), (2, 4), (3, 2), (0, 0)):
@@ -1449,6 +1536,8 @@ def gen(rng, tier):
     cases += ctor_cases(rng, 300 if quick else 5000)
     for _ in range(300 if quick else 5000):
         cases.append(built_case(rng, 'solve_t' if rng.random() < 0.65 else 'solve'))
+    for _ in range(150 if quick else 3000):           # twins over parser-built models
+        cases.append(built_twin_case(rng))
     for _ in range(200 if quick else 4000):           # histories: 2-4 calls on one linker
         cases.append(history_case(rng))
     for _ in range(200 if quick else 4000):           # copies: solve the copy (or the original), the other one must not move
